@@ -8,11 +8,13 @@
 //   (3) block ids are handed out in address order (non-decreasing along the object sequence);
 //   (4) REACH: with pos(b) := end address of b's owner (where the block's thunks are emitted),
 //       every object o assigned to b satisfies
-//           max(o.end, pos(b)) - min(o.start, pos(b)) < max_branch_range + size(owner(b)) + size(o)
-//       i.e. any branch inside o is within max_branch_range of b plus the two object sizes -- the
-//       slack ThunkLayoutBuilder::new reserves by subtracting MAXIMUM_THUNK_BYTES_PER_BLOCK from
-//       the hardware range.  (Measured: neither "+ size(owner)" nor "+ size(o)" alone holds, so
-//       this is the strongest bound of this shape; recorded as an assumption of the claim.)
+//           max(o.end, pos(b)) - min(o.start, pos(b))
+//               < max_branch_range + extent(owner(b)) + extent(o),   extent(i) = padding before i + size(i)
+//       i.e. any branch inside o is within max_branch_range of b plus the extents of the two
+//       objects -- the slack ThunkLayoutBuilder::new reserves by subtracting
+//       MAXIMUM_THUNK_BYTES_PER_BLOCK from the hardware range.  (Measured: the bound without the
+//       padding terms, and the bounds with only one of the two extents, are all refuted by CBMC,
+//       so this is the strongest bound of this shape; recorded as an assumption of the claim.)
 //   (5) no objects -> no blocks.
 // BOUNDED: at most N objects; sizes, gaps and the range are symbolic.
 use super::*;
@@ -92,9 +94,11 @@ fn run(n: usize) -> bool {
     let p = end[owner_idx];
     let hi = if end[o] > p { end[o] } else { p };
     let lo = if start[o] < p { start[o] } else { p };
+    // extent(i) := padding before object i + its size (objects are laid out back to back; the
+    // padding is alignment padding, at most 64 KiB per object)
     assert!(
-        hi - lo < range + sizes[owner_idx] + sizes[o],
-        "an object is further from its thunk block than the branch range plus the two object sizes"
+        hi - lo < range + (gaps[owner_idx] + sizes[owner_idx]) + (gaps[o] + sizes[o]),
+        "an object is further from its thunk block than the branch range plus the extents of the two objects"
     );
     num_blocks > 1
 }
